@@ -188,8 +188,9 @@ func (obj *InverseWishartDistribution) Pdf(r Scalar, x ConstMatrix) error {
 /* -------------------------------------------------------------------------- */
 
 func (obj *InverseWishartDistribution) GetParameters() Vector {
-  p := obj.S.AsVector()
-  p  = p.AppendScalar(obj.Nu)
+  // the result must not share elements with the distribution
+  p := obj.S.AsVector().CloneVector()
+  p  = p.AppendScalar(obj.Nu.CloneScalar())
   return p
 }
 
